@@ -36,7 +36,7 @@ class Prop(object):
     RULE = ('every sequence of 0..3 lines (thorough 0..4 over a reduced alphabet) over a 23-line alphabet (empty, dash lines, "- " lines, From lines, armor-looking lines, '
             'trailing space / tab, blank, non-ASCII, non-BMP, 1000 characters, trailing form feed / vertical tab / no-break space, embedded U+2028 / U+0085, carriage returns without line feed, a dash after each separator that is not a line end) x joiner {LF, CRLF} x final line end {no, yes}; each written and read back by PGPy, '
             'parsed and verified by the reference (7.1 canonical text), and written by the reference and verified by PGPy; hashes, signer counts and signing '
-            'algorithms on a slice. One state = one (text, direction).')
+            'algorithms on a slice, including signatures that disagree on the digest (one key twice, two keys, three signatures): the Hash header names every digest in use. One state = one (text, direction).')
     ASSUMPTIONS = ['refpgp.armor / refpgp.sig implement RFC 4880 7 and 7.1 (cross-checked at setup with the GnuPG-made cleartext fixtures)',
                    'a carriage return not followed by a line feed is read as a character of its line, as GnuPG 2.2.40 does (frozen vectors clear.*.doc.cr.txt.asc); a line that ENDS in a carriage return is not in the alphabet: written before a line feed it is indistinguishable from a CR LF line end']
     CASE_TIMEOUT = 900
@@ -75,6 +75,9 @@ class Prop(object):
         from pgpy.constants import HashAlgorithm
         key, raw, pub = self._ctx()
         signers = signers or [(key, raw, pub)]
+        # a signer may name a digest of its own as a fourth member (two signatures of one message need not agree on it)
+        signers = [(tuple(sg) + (halg,))[:4] for sg in signers]
+        used = sorted({HASH_HDR[sg[3]] for sg in signers})
         cls = classify(text)
         one = dict(case, text=text, hash=halg)
         r.states += 2
@@ -99,8 +102,8 @@ class Prop(object):
                     m = pgpy.PGPMessage.new(path, file=True, cleartext=True)
             else:
                 m = pgpy.PGPMessage.new(src, cleartext=True, **({'encoding': 'utf-8'} if form == 'bytearray+encoding' else {}))
-            for k, rw, pb in signers:
-                m |= k.sign(m, hash=HashAlgorithm[halg], created=K.dt(K.T0 + 77))
+            for k, rw, pb, sh in signers:
+                m |= k.sign(m, hash=HashAlgorithm[sh], created=K.dt(K.T0 + 77))
             alias.scribble(src)
             out = str(m)
             if m.message != text:
@@ -115,9 +118,9 @@ class Prop(object):
                 if a['cleartext'] != text.replace('\r\n', '\n') and a['cleartext'] != text:
                     stage = 'ref-read'
                     probs.append('independent reader recovers %r' % (a['cleartext'][:60],))
-                if sorted(a['hashes']) != sorted({HASH_HDR[halg]}):
+                if sorted(a['hashes']) != used:
                     stage = stage or 'hash-header'
-                    probs.append('Hash header %r' % (a['hashes'],))
+                    probs.append('Hash header declares %r, the signatures use %r' % (sorted(a['hashes']), used))
             except rarmor.ArmorError as e:
                 stage = 'ref-read'
                 probs.append('independent reader rejects the message: %r' % (e,))
@@ -128,7 +131,7 @@ class Prop(object):
                 pk = wire.read_packets(a['data'])
                 if len(pk) != len(signers):
                     probs.append('%d signature packets' % len(pk))
-                by_id = {rkeys.keyid(rw): rw for k, rw, pb in signers}
+                by_id = {rkeys.keyid(rw): rw for k, rw, pb, sh in signers}
                 for p in pk:
                     rw = by_id.get(rsig.issuer(rsig.parse_body(p['body'], strict=False))[0])
                     if rw is None:
@@ -149,7 +152,7 @@ class Prop(object):
                 if sorted(bytes(s) for s in m2.signatures) != sorted(bytes(s) for s in m.signatures):
                     stage = stage or 'roundtrip-sigs'
                     probs.append('signatures differ after read-back')
-                for k, rw, pb in signers:
+                for k, rw, pb, sh in signers:
                     if not pb.verify(m2):
                         stage = stage or 'roundtrip-verify'
                         probs.append('does not verify after read-back')
@@ -168,20 +171,20 @@ class Prop(object):
         try:
             canon = rarmor.cleartext_canonical(text)
             sigs = b''
-            for k, rw, pb in signers:
-                body = rsig.make(rw, 0x01, S.HASH_ID[halg], rsig.sp_created(K.T0 + 78) + rsig.sp_issuer_fpr(rkeys.fingerprint(rw)), rsig.sp_issuer(rkeys.keyid(rw)), {'doc': canon})
+            for k, rw, pb, sh in signers:
+                body = rsig.make(rw, 0x01, S.HASH_ID[sh], rsig.sp_created(K.T0 + 78) + rsig.sp_issuer_fpr(rkeys.fingerprint(rw)), rsig.sp_issuer(rkeys.keyid(rw)), {'doc': canon})
                 sigs += wire.packet(2, body)
-            txt = rarmor.cleartext_message(text.replace('\r\n', '\n'), sigs, [HASH_HDR[halg]])
+            txt = rarmor.cleartext_message(text.replace('\r\n', '\n'), sigs, used)
             m3 = pgpy.PGPMessage.from_blob(txt)
             r.transitions += 1
-            for k, rw, pb in signers:
+            for k, rw, pb, sh in signers:
                 if not pb.verify(m3):
                     stage = 'verify'
                     probs.append('PGPy rejects a valid cleartext message written by the independent implementation')
             # the same message as a CRLF file (mail gateways, Windows): must verify as well
             m4 = pgpy.PGPMessage.from_blob(txt.replace('\n', '\r\n'))
             r.transitions += 1
-            for k, rw, pb in signers:
+            for k, rw, pb, sh in signers:
                 if not pb.verify(m4):
                     stage = stage or 'verify-crlf'
                     probs.append('PGPy rejects the same message when the file uses CRLF line ends')
@@ -331,9 +334,17 @@ class Prop(object):
         k4 = S.signer_cert('dsa1024')
         trip = lambda c: (c[0], c[1], c[0].pubkey)
         sets = [[trip(k1)], [trip(k2)], [trip(k3)], [trip(k4)], [trip(k1), trip(k2)], [trip(k3), trip(k1)]]
+        # signatures that do not agree on the digest: one key twice, two keys, three signatures (the Hash header names every digest in use)
+        mixed = [[trip(k1) + ('SHA256',), trip(k1) + ('SHA512',)], [trip(k1) + ('SHA512',), trip(k1) + ('SHA256',)],
+                 [trip(k1) + ('SHA256',), trip(k3) + ('SHA512',)], [trip(k3) + ('SHA384',), trip(k1) + ('SHA384',), trip(k3) + ('SHA1',)],
+                 [trip(k1) + ('SHA1',), trip(k3) + ('SHA256',), trip(k1) + ('SHA384',)], [trip(k2) + ('SHA224',), trip(k2) + ('SHA512',), trip(k2) + ('SHA256',)]]
+        n_plain = len(sets)
+        sets = sets + mixed
         for t in texts:
             for h in HASHES:
                 for si, ss in enumerate(sets):
+                    if si >= n_plain and h != HASHES[0]:
+                        continue
                     if 'only' in case and case['only'] != [t, h, si]:
                         continue
                     self._one_text(r, t, dict(case, only=[t, h, si]), h, ss)
